@@ -56,6 +56,13 @@ class C17(core.Check):
         for cutset in ((50,), (52,), (57,), (61,), (20, 52), tuple(range(1, len(wire)))):
             cs.append(("resp", False, wire, cutset, True, "cf"))
             cs.append(("resp", False, wire, cutset, True, None))
+        w1 = self._chunked_response(r0, b"first body", (3,), (), (), ())
+        w2 = self._chunked_response(r0, b"SECOND", (2, 2), (), (), ())
+        w3 = b"HTTP/1.1 200 OK\r\nContent-Length: 5\r\n\r\nthird"
+        self._resp_bodies[w3] = b"third"
+        for ws in ((w1, w2), (w1, w2, w1), (w3, w1, w2), (w1, w3, w2)):
+            cs.append(("clih", ws, ()))
+            cs.append(("clih", ws, (len(ws[0]), len(ws[0]) + 10)))
         for extra in self.FRAMING:
             for te_first in (True, False):
                 w = self._chunked_response(r0, b"abcdefghi", (3, 4), (), ((b"T", b"v"),), (), extra, te_first)
@@ -115,7 +122,19 @@ class C17(core.Check):
         from hio.core.http import httping
         for _ in range(n):
             k = rng.random()
-            if k < 0.04:     # framing header combinations on both sides: chunked together with Content-Length(s), either order
+            if k < 0.03:     # several responses on one Client, chunked and with a length mixed; what was handed out must stay as it was
+                ws = []
+                for _ in range(rng.choice([2, 2, 3, 4])):
+                    body = hp.rand_body(rng, rng.choice([1, 3, 5, 17, rng.randrange(1, 60)]))
+                    if rng.random() < 0.7:
+                        ws.append(self._chunked_response(rng, body, tuple(rng.choice([1, 2, 3, 16]) for _ in range(rng.randrange(0, 4))), (), (), ()))
+                    else:
+                        w = b"HTTP/1.1 200 OK\r\nContent-Length: %d\r\n\r\n" % len(body) + body
+                        self._resp_bodies[w] = body
+                        ws.append(w)
+                d = b"".join(ws)
+                yield ("clih", tuple(ws), hp.cuts_for(rng, d, rng.choice(["none", "two", "uniform", "term"])))
+            elif k < 0.04:     # framing header combinations on both sides: chunked together with Content-Length(s), either order
                 body = hp.rand_body(rng, rng.choice([0, 1, 3, 5, 17, rng.randrange(1, 60)]))
                 sizes = tuple(rng.choice([1, 2, 3, 16, 40]) for _ in range(rng.randrange(0, 5)))
                 extra = rng.choice(self.FRAMING)
@@ -187,6 +206,19 @@ class C17(core.Check):
         bad = []
         if case[0] == "wsgi":
             return self._oracle_wsgi(case, obs)
+        if case[0] == "clih":
+            esc, resps, stable = obs[0]
+            if esc is not None:
+                bad.append("exception-escaped")
+                return bad
+            want = [self._resp_bodies.get(w) for w in case[1]]
+            if len(resps) != len(want):
+                bad.append("response-missing")
+            elif any(w is not None and (er or b != w) for (st, er, b), w in zip(resps, want)):
+                bad.append("decoded-body-differs")
+            if not stable:
+                bad.append("handed-out-object-changed-later")      # a body / headers / entry the caller holds was modified afterwards
+            return bad
         if case[0] == "req":
             # a complete chunked request (possibly with Content-Length headers as well): chunked wins, the body is the decoded body
             cut, whole = obs
@@ -297,6 +329,8 @@ class C17(core.Check):
 
     @hp.safe(True)
     def nontrivial(self, case, obs):
+        if case[0] == "clih":
+            return True
         if case[0] in ("resp", "req"):
             return len(obs[0][0]) >= 1
         if case[0] == "wsgi":
@@ -305,6 +339,8 @@ class C17(core.Check):
 
     @hp.safe(list)
     def features(self, case, obs):
+        if case[0] == "clih":
+            return ["clih", f"clih:responses:{len(case[1])}"]
         if case[0] == "req":
             return ["req", "framing:te+cl" if b"ontent-" in case[1].lower() else "framing:te"]
         if case[0] == "resp":
